@@ -59,7 +59,7 @@ def main():
     caught = detect(out / "patch.diff")
     meta = {
         "property": pid,
-        "origin": f"sub-agent given only the property text and a scratch worktree ({'round 1' if tag == 'r1' else 'round 2'})",
+        "origin": f"sub-agent given only the property text and a scratch worktree (round {tag[1:]})",
         "summary": agent_meta.get("summary", ""),
         "breaks": agent_meta.get("breaks", ""),
         "needs": agent_meta.get("needs", ""),
@@ -70,7 +70,7 @@ def main():
                 f"git apply patch.diff -> exit {conf.get('apply_rc')}; python -m compileall -q src/pyhf -> exit {conf.get('compile_rc')}",
                 f"python demo.py with the patch -> exit {conf.get('demo_patched_rc')}: {conf.get('demo_patched_tail', '')[-200:].strip()}",
                 f"pytest ({conf.get('pytest_scope')}) with the patch: {conf.get('tests_run')} test cases in {conf.get('pytest_wall_s')} s; tests that pass in the baseline and fail now: {conf.get('regressions_vs_baseline')}",
-            ],
+            ] + ([conf["order_artefact_rerun"]] if conf.get("order_artefact_rerun") else []),
         },
         "caught_by": caught,
         "how_to_replay": "git -C /repo apply /verif/seeded/%s/patch.diff; cd /verif && /venv/bin/python -m pyhfsa check <ID>; git -C /repo checkout -- ." % name,
